@@ -89,6 +89,8 @@ type State struct {
 	ghosts   map[string]Term
 	ghostBound map[string]bool
 	callCount  map[string]int
+	cnt        map[string]Term // calls(NAME): symbolic number of calls of NAME made by this activation
+	loopSnap   *State          // state at the most recent loop head on this path (for prev())
 	facts    map[string]bool
 	defs     map[string]string
 	local    map[string]bool     // fresh objects of this activation that have not escaped yet
